@@ -64,7 +64,7 @@ Proof. unfold dyj, ny. apply map_nth_seq. Qed.
 
 Lemma elev_rock k i j : present g (Cell (S k) i j) -> elev K (Some av) (blk (Cell (S k) i j)) = Some (zc g (S k) i j).
 Proof.
-  intros P. unfold elev. change (bcen (blk (Cell (S k) i j))) with (Some (ccx g i, ccy g j, zc g (S k) i j)).
+  intros P. unfold elev. change (bcen (blk (Cell (S k) i j))) with (Some (px g i j, py g i j, zc g (S k) i j)).
   change (bvol (blk (Cell (S k) i j))) with (cvol (cellof g (Cell (S k) i j))).
   rewrite (HY volok_rock (Some av) k i j (or_intror eq_refl) P). reflexivity.
 Qed.
